@@ -233,6 +233,8 @@ Definition spec_silent (c : case) : list nat :=
   match c with
   | CCall MSort _ _ _ => []
   | CCall m recv args _ => match spec_call m recv args with None => [9%nat] | Some _ => [] end
+  | CMix MSort _ _ _ => []
+  | CMix m recv items _ => match spec_call m recv (flatten_args items) with None => [9%nat] | Some _ => [] end
   | CNamed m pn recv pos named _ =>
       match bind_named pn pos named with
       | Some args => match m with MSort => [] | _ => match spec_call m recv args with None => [9%nat] | Some _ => [] end end
